@@ -1,6 +1,8 @@
 import HawkModel.SedLemmas
 import HawkModel.SedParseLemmas
 import HawkModel.SedPrint
+import HawkModel.SedParseProgress
+import HawkModel.SedParseNoInternal
 /-!
   C18 — theorems about the reference executor `Hawk.Sed.exec` (HawkModel/Sed.lean), which the
   correspondence check ties to lib/sed.c (hawk-sed CLI) and to GNU `sed --posix`.
@@ -611,15 +613,17 @@ example : compileText {} ['b', 'x'] = .error (.inr .noLabel) := by
 
 /-- `print_parse_roundtrip_partial`: compiling the printed form of a command list gives the command list back, for every list
     of `Plain` commands that hawk_sed_comp's bookkeeping accepts (`accepts`: blocks nest, at most 128 deep, no label twice).
-    Plain = one or two addresses out of `$` and the line numbers 1 .. 2^64-1, or none; any negation; the argument-less
-    commands q Q = d D p P l h H g G x n N z; `a` `i` `c` with any text ending in a newline (backslashes and embedded
-    newlines are escaped by the printer); `r` `R` `w` `W` with any non-empty NUL-free file name (terminators, spaces,
-    backslashes and newlines escaped by the printer); `y` with any pair list (printed between `/`, with `/` `\\` and newline
-    escaped); `b` `t` with or without a label; `:label`; `{` and `}`.
-    Every trait setting without -a (with -a `1,2q` is an error).
-    MISSING for the full statement: regex addresses (and the I modifier) and the `s` command (pickup_rex with its
-    bracket-state machine has no proved inverse); for those the round trip
-    is only exercised on the real compiler (text -> dump, three chunkings), not proved. -/
+    Plain = one or two addresses (or none) out of `$`, the line numbers 1 .. 2^64-1 and `/regex/` with or without the I
+    modifier, for regexes free of backslash, newline, `/`, `[` and `]` (the empty regex included); any negation; the
+    argument-less commands q Q = d D p P l h H g G x n N z; `a` `i` `c` with any text ending in a newline (backslashes and
+    embedded newlines are escaped by the printer); `r` `R` `w` `W` with any non-empty NUL-free file name (terminators,
+    spaces, backslashes and newlines escaped by the printer); `y` with any pair list (printed between `/`, with `/` `\\`
+    and newline escaped); `s/re/rpl/flags` with such a regex, a replacement free of backslash, newline and `/`, every
+    combination of g p i k and every occurrence number get_subst can produce (1 .. 65535, none with g), no w file;
+    `b` `t` with or without a label; `:label`; `{` and `}`.  Every trait setting without -a (with -a `1,2q` is an error).
+    MISSING for the full statement: regexes / replacements that need escaping or contain bracket expressions
+    (pickup_rex's bracket-state machine has no proved inverse), the `w` flag of `s`, delimiters other than `/`;
+    for those the round trip is only exercised on the real compiler (text -> dump, three chunkings), not proved. -/
 theorem print_parse_roundtrip_partial (tr : Traits) (hs : tr.strict = false) (cs : List PCmd) (h : ∀ c ∈ cs, c.Plain)
     (ha : accepts cs 0 [] = true) : parseScript tr (printCmds cs) = .ok cs :=
   compLoop_print tr hs cs h 0 [] ha
@@ -633,15 +637,15 @@ theorem print_compile_roundtrip_partial (tr : Traits) (hs : tr.strict = false) (
 /-- non-vacuity: `12,$!{` / `a\` X / `bx` / `}` / `:x` is a Plain, accepted list, and its printed form is the expected text -/
 def sampleCmds : List PCmd :=
   [⟨.line 12, .last, true, .lbrace⟩, ⟨.none, .none, false, .text 'a' ['X', '\\', '\n']⟩,
-   ⟨.last, .none, false, .file 'w' ['f', ';', '1', ' ']⟩, ⟨.none, .none, true, .trans [('a', '/'), ('\n', '\\')]⟩,
+   ⟨.last, .none, false, .file 'w' ['f', ';', '1', ' ']⟩, ⟨.re ['a', '.'] true, .re [] false, false, .subst ['b', '*'] ['&', 'x'] true true false true 3 none⟩, ⟨.none, .none, true, .trans [('a', '/'), ('\n', '\\')]⟩,
    ⟨.none, .none, false, .branch 'b' (some ['x'])⟩, ⟨.none, .none, false, .rbrace⟩, ⟨.none, .none, false, .label ['x']⟩]
 
 example : (∀ c ∈ sampleCmds, c.Plain) ∧ accepts sampleCmds 0 [] = true := by
   refine ⟨?_, by decide⟩
   intro c hc
   simp [sampleCmds] at hc
-  rcases hc with rfl | rfl | rfl | rfl | rfl | rfl | rfl <;>
-    simp [PCmd.Plain, PAddr.plain, POp.plain, POp.isMark, plainChars, labelName, fileName, endsNl, isLabChar, isCmdTermC, isSpace]
+  rcases hc with rfl | rfl | rfl | rfl | rfl | rfl | rfl | rfl <;>
+    simp [PCmd.Plain, PAddr.plain, POp.plain, POp.isMark, plainChars, labelName, fileName, plainRe, plainRpl, occOK, endsNl, isLabChar, isCmdTermC, isSpace]
 
 /-- `line_address_roundtrip`: a line-number address printed in decimal is read back by get_address as that number (below 2^64,
     where hawk_oow_t wraps), whatever non-digit text follows.  (The part of the printer round trip for line-number addresses;
@@ -702,5 +706,179 @@ theorem trans_pointwise (pairs : List (Char × Char)) (ps : Str) (i : Nat) (hi :
     (doTrans pairs ps)[i]? = ((trimLine ps).1[i]?).map (transChar pairs) := by
   unfold doTrans
   simp [List.getElem?_append_left, hi]
+
+/-- `progress_guard_dead`: the two tests that make `compLoop`'s recursion well-founded always succeed — a command that
+    hawk_sed_comp accepts consumes at least its command character (every reader returns a suffix of what it was given:
+    get_address, pickup_rex, get_text, get_label, get_branch_target, get_file, the option loop of get_subst, get_transet),
+    and a comment is no longer than the text it stands in.  So the `PErr.internal` branches of `compLoop` are never taken. -/
+theorem progress_guard_dead (tr : Traits) (c : Char) (r : Str) :
+    (∀ cmd s', parseCmd tr (c :: r) = .ok (cmd, s') → s'.length ≤ r.length) ∧ (skipComment r).length ≤ r.length := by
+  refine ⟨?_, skipComment_len r⟩
+  intro cmd s' h
+  have := parseCmd_len tr (c :: r) cmd s' h
+  simp at this; omega
+
+/-- `compiler_never_internal`: the model of hawk_sed_comp never reports `PErr.internal` — no reader produces that value and
+    the progress guard is dead — so every error of `parseScript` is an error number of the C compiler (or `unsupported`
+    for the cut command) -/
+theorem compiler_never_internal (tr : Traits) (s : Str) : parseScript tr s ≠ .error .internal :=
+  fun h => compLoop_no_internal tr s 0 [] h
+
+/-! ## round 5, second increment: the executor below command granularity -/
+
+/-- `last regex` bookkeeping of match_a: the regex address that is EVALUATED (addr1 of a closed range or of a one-address
+    command, addr2 of an open range) becomes the last regex whether or not it matched — `sel` is not consulted -/
+theorem address_regex_recorded (m : Matcher) (c : Cmd) (pc : Nat) (st st' : St) (sel cr : Bool) (p : Str) (hne : p ≠ [])
+    (h1 : c.a1 ≠ .none)
+    (hev : (if c.a2 ≠ .none ∧ st.rstate.getD pc false = true then c.a2 else c.a1) = .re p)
+    (h : matchAddress m c pc st = some (st', sel, cr)) : st'.lastRe = some p := by
+  unfold matchAddress at h
+  simp only [h1, ↓reduceIte] at h
+  by_cases h2 : c.a2 = .none
+  · simp only [h2, ↓reduceIte] at h
+    simp [h2] at hev
+    rw [hev] at h
+    simp [matchA, hne] at h
+    rw [← h.1]
+  · simp only [h2, ↓reduceIte] at h
+    simp only [ne_eq, h2, not_false_eq_true, true_and] at hev
+    rw [hev] at h
+    simp [matchA, hne] at h
+    rw [← h.1]
+
+/-- non-vacuity: `/x/p` on a line that does not match (a matcher that never matches): not selected, `x` is the last regex -/
+example : (matchAddress (fun _ _ _ => none) { a1 := .re ['x'], op := .print } 0 { input := [], ps := ['a', '\n'] }).map
+    (fun r => (r.1.lastRe, r.2.1)) = some (some ['x'], false) := by
+  rfl
+
+/-- ... and what is recorded does not depend on the regex engine at all: two matchers that disagree on every match leave the
+    same last regex behind (a change that records it "only on a match" breaks this law) -/
+theorem last_regex_matcher_independent (m1 m2 : Matcher) (a : Addr) (st : St) :
+    (matchA m1 a st).map (·.1.lastRe) = (matchA m2 a st).map (·.1.lastRe) := by
+  cases a with
+  | re p =>
+    by_cases hp : p = []
+    · cases hl : st.lastRe <;> simp [matchA, hp, hl]
+    · simp [matchA, hp]
+  | _ => simp [matchA]
+
+/-- `s` records its (non-empty) regex as the last regex whether or not anything was replaced -/
+theorem subst_regex_recorded (m : Matcher) (q cr : Bool) (re rpl : Str) (g : Bool) (occ : Nat) (p : Bool) (w : Option Str)
+    (st : St) (hne : re ≠ []) : (execCmd m q (.subst re rpl g occ p w) cr st).1.lastRe = some re := by
+  have hw : ∀ (s : St) (f t : Str), (writeFile s f t).lastRe = s.lastRe := by
+    intro s f t; unfold writeFile; split <;> rfl
+  simp only [execCmd, hne, ↓reduceIte]
+  cases p <;> cases w <;> split <;> simp [hw]
+
+/-- the class of "recorded only when matched": `/p/!s//rpl/flags` — on the lines NOT matching p the empty regex of `s` is p —
+    runs every cycle exactly like `/p/!s/p/rpl/flags`, for every matcher, state and negation flag -/
+theorem empty_subst_after_address (m : Matcher) (q : Bool) (cap fuel : Nat) (p rpl : Str) (neg g : Bool) (occ : Nat) (pf : Bool)
+    (w : Option Str) (st : St) (hne : p ≠ []) :
+    cycleRun m [{ a1 := .re p, neg := neg, op := .subst [] rpl g occ pf w }] q cap fuel 0 st =
+    cycleRun m [{ a1 := .re p, neg := neg, op := .subst p rpl g occ pf w }] q cap fuel 0 st := by
+  suffices H : ∀ fuel pc st,
+      cycleRun m [{ a1 := .re p, neg := neg, op := .subst [] rpl g occ pf w }] q cap fuel pc st =
+      cycleRun m [{ a1 := .re p, neg := neg, op := .subst p rpl g occ pf w }] q cap fuel pc st from H fuel 0 st
+  intro fuel
+  induction fuel with
+  | zero => intro pc st; rfl
+  | succ f ih =>
+    intro pc st
+    cases pc with
+    | succ k => simp [cycleRun]
+    | zero =>
+      have key : ∀ cr, execCmd m q (.subst [] rpl g occ pf w) cr { st with lastRe := some p } =
+          execCmd m q (.subst p rpl g occ pf w) cr { st with lastRe := some p } :=
+        fun cr => subst_empty_regex_reuses_last m q cr p rpl g occ pf w _ rfl hne
+      simp [cycleRun, matchAddress, matchA, hne, key, ih]
+
+/-- `s///g`: every match of the non-overlapping leftmost match sequence is replaced (for any matcher: `Matcher.at` keeps only
+    answers obeying the interface law, and `matchSeq_ordered` says the sequence is left-to-right and non-overlapping) -/
+theorem subst_global (m : Matcher) (re rpl : Str) (occ : Nat) (ps : Str) :
+    (doSubst m re rpl true occ ps).1 =
+      render (trimLine ps).1 rpl (fun _ => true) 0 1 (matchSeq m re (trimLine ps).1 0 none) ++ (trimLine ps).2 := by
+  rw [subst_occurrence]
+  have : selOcc 0 = fun _ => true := by funext k; simp [selOcc]
+  simp [this]
+
+/-- the append queue has no capacity: a cycle of ANY number of `a` commands queues all their texts in order
+    (hawk keeps the first 16 in an array and the rest in a list: `free_appends` must reset both) -/
+theorem appends_all_queued (m : Matcher) (q : Bool) (cap : Nat) (ts : List Str) :
+    ∀ (pre : Prog) (st : St) (fuel : Nat), ts.length + 1 ≤ fuel →
+      cycleRun m (pre ++ ts.map fun t => { op := .append t }) q cap fuel pre.length st =
+        .over { st with appq := st.appq ++ ts } := by
+  induction ts with
+  | nil =>
+    intro pre st fuel hf
+    cases fuel with
+    | zero => omega
+    | succ f => simp [cycleRun]
+  | cons t r ih =>
+    intro pre st fuel hf
+    cases fuel with
+    | zero => omega
+    | succ f =>
+      have hidx : (pre ++ (t :: r).map fun t => ({ op := .append t } : Cmd))[pre.length]? = some { op := .append t } := by simp
+      have := ih (pre ++ [{ op := .append t }]) { st with appq := st.appq ++ [t] } f (by simp at hf ⊢; omega)
+      simp only [List.length_append, List.length_singleton, List.append_assoc, List.singleton_append] at this
+      rw [cycleRun, hidx]
+      simp only [matchAddress, execCmd]
+      simp [this]
+
+/-- the queue is flushed, entirely, at the end of every cycle: the next cycle starts with an empty queue -/
+theorem queue_empty_after_cycle (q : Bool) (st : St) (skip : Bool) : (emitOutput q st skip).appq = [] := rfl
+
+/-- `appends_all_queued` end to end, across cycles: a script of any number of `a` commands (17, 100, ...) writes, for EVERY
+    input line, the line and then all the texts in order — nothing is lost in a later cycle, the queue starts empty each time -/
+theorem appends_every_cycle (m : Matcher) (cap : Nat) (ts : List Str) (input : List Str) :
+    (exec m (ts.map fun t => { op := .append t }) false cap (ts.length + 1) input).out =
+      input.foldl (fun o l => ts.foldl emit (emit o l)) [] := by
+  have key : ∀ (budget : Nat) (st : St), st.appq = [] → st.input.length ≤ budget →
+      (execLoop m (ts.map fun t => { op := .append t }) false cap (ts.length + 1) budget st).out =
+        st.input.foldl (fun o l => ts.foldl emit (emit o l)) st.out := by
+    intro budget
+    induction budget with
+    | zero => intro st _ hl; have : st.input = [] := by cases hi : st.input <;> simp_all
+              simp [execLoop, finish, this]
+    | succ b ih =>
+      intro st hq hl
+      cases hi : st.input with
+      | nil => simp [execLoop, hi, finish]
+      | cons l rest =>
+        have hc := appends_all_queued m false cap ts [] { st with input := rest, ps := l, lineno := st.lineno + 1, substDone := false }
+          (ts.length + 1) (Nat.le_refl _)
+        simp only [List.nil_append, List.length_nil] at hc
+        rw [execLoop]
+        simp only [hi, hc]
+        rw [ih]
+        · simp [emitOutput, hq]
+        · simp [emitOutput]
+        · simp [emitOutput, hi] at hl ⊢; omega
+  have := key input.length (initSt (ts.map fun t => { op := .append t }) input) rfl (by simp [initSt])
+  simpa [exec, initSt] using this
+
+/-- the order of the contributions of one cycle: `i` text at once, `p` copy, `=` line number at the point of the command;
+    then, at the end of the cycle, the autoprint and after it the queue (`a` text, `r` file) in the order queued -/
+theorem cycle_output_order (m : Matcher) (cap fuel : Nat) (ti ta f : Str) (c : Option Str) (st : St) :
+    let prog : Prog := [{ op := .insert ti }, { op := .append ta }, { op := .readFile f c }, { op := .print }, { op := .lineno }]
+    let mid := emit (emit (emit st.out ti) st.ps) (toString st.lineno).toList ++ ['\n']
+    cycleRun m prog false cap (fuel + 6) 0 st = .over { st with out := mid, appq := st.appq ++ [ta] ++ [c.getD []] } ∧
+    (emitOutput false { st with out := mid, appq := st.appq ++ [ta] ++ [c.getD []] } false).out =
+      (st.appq ++ [ta, c.getD []]).foldl emit (emit mid st.ps) := by
+  constructor
+  · simp [cycleRun, matchAddress, execCmd]
+  · simp [emitOutput]
+
+/-- hold / pattern space algebra: `x;g` is `h` on the buffers (the pattern space survives, the hold space becomes a copy of it) -/
+theorem xchg_get_is_hold (m : Matcher) (q cr : Bool) (st : St) :
+    let s2 := (execCmd m q .get cr (execCmd m q .xchg cr st).1).1
+    s2.ps = st.ps ∧ s2.hold = st.ps := by
+  simp [execCmd]
+
+/-- `x;h` is `g` on the buffers (the hold space survives, the pattern space becomes a copy of it) -/
+theorem xchg_hold_is_get (m : Matcher) (q cr : Bool) (st : St) :
+    let s2 := (execCmd m q .hold cr (execCmd m q .xchg cr st).1).1
+    s2.ps = st.hold ∧ s2.hold = st.hold := by
+  simp [execCmd]
 
 end Hawk.Sed.C18
